@@ -41,7 +41,9 @@ def gen_configs(tier, rng):
             cfgs.append({"n": n, "how": how, "v": v, "kind": kind, "shuffle": shuffle, "extras": extras,
                          "dims_seed": rng.randint(0, 10 ** 6),
                          # cases x grid goes through either sowing entry point
-                         "entry": rng.choice(["sow_combos", "sow_cases"]) if kind == "casesgrid" else "auto"})
+                         "entry": rng.choice(["sow_combos", "sow_cases"]) if kind == "casesgrid" else "auto",
+                         # the batch request is made when the crop is created, or with the sow call
+                         "where": rng.choice(["ctor", "ctor", "sow"])})
     # invalid requests (rejected by the code, error branch of the model)
     for how, v in [("bs", 0), ("bs", -2), ("nb", 0), ("nb", -1)]:
         cfgs.append({"n": 5, "how": how, "v": v, "kind": "grid", "shuffle": False, "extras": "none", "dims_seed": 1})
@@ -89,7 +91,9 @@ def observe(cfg, tmp):
     parent = os.path.join(tmp, "p")
     os.makedirs(parent, exist_ok=True)
     shutil.rmtree(os.path.join(parent, ".xyz-c07"), ignore_errors=True)
-    kw = dict(name="c07", parent_dir=parent, batchsize=bs, num_batches=nb)
+    at_sow = cfg.get("where") == "sow"
+    kw = dict(name="c07", parent_dir=parent) if at_sow else dict(name="c07", parent_dir=parent, batchsize=bs, num_batches=nb)
+    skw = dict(batchsize=bs, num_batches=nb) if at_sow else {}
     if farmer is not None:
         crop = C.Crop(farmer=farmer, **kw)
     else:
@@ -98,17 +102,17 @@ def observe(cfg, tmp):
     try:
         if cases is not None and not combos:
             # list of cases through sow_cases (dict spelling -> fn_args inferred from the case keys)
-            crop.sow_cases(("k", "j"), [(c["k"], c["j"]) for c in cases], constants=sow_consts, verbosity=0)
+            crop.sow_cases(("k", "j"), [(c["k"], c["j"]) for c in cases], constants=sow_consts, verbosity=0, **skw)
             if cfg["shuffle"]:
                 obs["shuffle_ignored"] = True    # sow_cases has no shuffle argument
             eff_shuffle = False
         elif cases is not None and cfg.get("entry") == "sow_cases":
             # cases with sub-combos through sow_cases: the sub-combos are enumerated in the order given
             crop.sow_cases(("k", "j"), [(c["k"], c["j"]) for c in cases], combos=combos, constants=sow_consts,
-                           verbosity=0)
+                           verbosity=0, **skw)
             eff_shuffle = False
         else:
-            crop.sow_combos(combos, cases=cases, constants=sow_consts, shuffle=cfg["shuffle"], verbosity=0)
+            crop.sow_combos(combos, cases=cases, constants=sow_consts, shuffle=cfg["shuffle"], verbosity=0, **skw)
             eff_shuffle = cfg["shuffle"]
     except (ValueError, TypeError) as e:
         obs["error"] = type(e).__name__
@@ -245,7 +249,7 @@ def run_cfgs(c, cfgs, tmp, stream):
         c.case(sig, nontrivial=cfg["n"] > 1 or "error" in obs,
                sample={"cfg": {k: cfg[k] for k in ("n", "how", "v", "kind", "shuffle", "extras")},
                        "numbers": obs.get("numbers"), "batches": obs.get("batches"), "error": obs.get("error")})
-        c.count("kind", cfg["kind"]); c.count("entry", cfg.get("entry", "auto")); c.count("request", cfg["how"]); c.count("shuffle", bool(cfg["shuffle"]))
+        c.count("kind", cfg["kind"]); c.count("entry", cfg.get("entry", "auto")); c.count("request_made", cfg.get("where", "ctor")); c.count("request", cfg["how"]); c.count("shuffle", bool(cfg["shuffle"]))
         c.count("extras", cfg["extras"]); c.count("outcome", obs.get("error", "ok"))
         for key, msg in oracle(cfg, obs):
             c.violation(key, msg,
